@@ -3,6 +3,7 @@
 mod batch;
 mod checks;
 mod conc;
+mod corrupt;
 mod crash;
 mod exec;
 mod gen;
